@@ -491,7 +491,7 @@ func c37GenQuery(t *rapid.T) c37Gen {
 	case "show-topics":
 		g.Text = c37Kw(t, "show") + " " + c37Kw(t, "topics")
 	case "set":
-		g.Text = rapid.SampledFrom([]string{"set search_path = public", "SET x = 1", "reset all", "set\tx = 1", "set x = 1; select * from secret last 1h"}).Draw(t, "set")
+		g.Text = rapid.SampledFrom([]string{"set search_path = public", "SET x = 1", "reset all", "set\tx = 1", "set x = 1; select * from secret last 1h", "set x = 'pg_catalog.pg_tables'", "SET search_path = information_schema.tables"}).Draw(t, "set")
 	case "catalog":
 		g.Text = rapid.SampledFrom([]string{"select * from information_schema.tables", "select * from pg_catalog.pg_tables",
 			"select * from orders information_schema.tables last 1h", "select * from information_schema.columns"}).Draw(t, "catalog")
@@ -766,6 +766,13 @@ func c37Judge(up *c37Upstream, allow, deny []string, q string, o c37Outcome, st 
 	switch {
 	case isCatalog:
 		st.Class("stat:catalog-listing-forwarded")
+		if isSet && truth.Rows > 0 {
+			// the upstream matches pg_catalog/information_schema before SET handling: topic NAMES are listed
+			st.Class("stat:set-prefixed-text-answered-by-catalog-listing")
+			if len(deny) > 0 {
+				st.Class("stat:set-prefixed-catalog-listing-while-show-topics-is-denied")
+			}
+		}
 		if len(deny) > 0 {
 			st.Class("stat:catalog-listing-forwarded-while-show-topics-is-denied")
 		}
